@@ -46,7 +46,7 @@ def run_cases(ck, res, n_cases, n_interval, exhaustive=False):
         net = make_net([net_p])
         # a sixth of the conditions are built with the documented DEPRECATED spellings (bundle_conditions=, x_0=, positional
         # arguments with an omitted u_0_prime): the lookup table must reach the condition unchanged through the renaming decorator
-        spelling = 'deprecated' if ci % 6 == 5 else 'new'
+        spelling = 'deprecated' if ci % 6 == 5 else ('positional' if ci % 6 == 2 else 'new')
         try:
             with warnings.catch_warnings():
                 warnings.simplefilter('ignore')
@@ -55,6 +55,10 @@ def run_cases(ck, res, n_cases, n_interval, exhaustive=False):
                         cond = C.BundleIVP(attrs['t_0'], x_0=attrs['u_0'], x_0_prime=attrs['u_0_prime'], bundle_conditions=dict(lk))
                     else:
                         cond = C.BundleIVP(attrs['t_0'], attrs['u_0'], bundle_conditions=dict(lk))
+                elif kind == 'ivp' and spelling == 'positional':    # documented order (t_0, u_0, u_0_prime, bundle_param_lookup)
+                    cond = C.BundleIVP(attrs['t_0'], attrs['u_0'], attrs['u_0_prime'] if pa else None, dict(lk))
+                elif spelling == 'positional':                        # (t_0, u_0, t_1, u_1, bundle_param_lookup)
+                    cond = C.BundleDirichletBVP(attrs['t_0'], attrs['u_0'], attrs['t_1'], attrs['u_1'], dict(lk))
                 elif kind == 'ivp':
                     cond = C.BundleIVP(t_0=attrs['t_0'], u_0=attrs['u_0'], u_0_prime=attrs['u_0_prime'] if pa else None, bundle_param_lookup=dict(lk))
                 elif spelling == 'deprecated':
